@@ -107,7 +107,9 @@ def _lift32(v):
 class SymArray(np.ndarray):
     """object ndarray whose elements are Sym (or anything liftable)."""
 
-    __array_priority__ = 100.0
+    # higher than Sym (1000): `arr *= sym_scalar` must stay an IN-PLACE ufunc call on the array (numpy defers to the operand
+    # with the higher priority even for in-place operators, which would silently turn it into a re-binding)
+    __array_priority__ = 2000.0
 
     def __new__(cls, shape):
         return np.ndarray.__new__(cls, shape, dtype=object)
@@ -315,6 +317,17 @@ def _np_allclose(a, b, rtol=1e-5, atol=1e-8, equal_nan=False):
     return cond
 
 
+def _np_isclose(a, b, rtol=1e-5, atol=1e-8, equal_nan=False):
+    """elementwise |a - b| <= atol + rtol*|b| (numpy's definition); a Sym for scalars, a SymArray otherwise"""
+    scalar = np.ndim(a) == 0 and np.ndim(b) == 0
+    a, b = np.broadcast_arrays(sym_view(a), sym_view(b))
+    out = SymArray(a.shape)
+    for idx in np.ndindex(*a.shape):
+        x, y = _l(a[idx]), _l(b[idx])
+        out[idx] = S.sabs(x - y) <= S.lift(atol) + S.lift(rtol) * S.sabs(y)
+    return out[()] if scalar else out
+
+
 def _truth(v):
     v = _l(v)
     return v if v.sort == S.BOOL else S.Not(S._cmp("eq", v, S.ZERO))
@@ -346,6 +359,7 @@ _FUNCS = {
     np.dot: _np_dot,
     np.zeros_like: _np_zeros_like,
     np.allclose: _np_allclose,
+    np.isclose: _np_isclose,
 }
 
 
